@@ -146,6 +146,12 @@ private:
     SchemaValidator& operator=(const SchemaValidator&);
 
     // -----------------------------------------------------------------------
+    //  Content checking helper: default/fixed value of mixed content
+    // -----------------------------------------------------------------------
+    void checkMixedValueConstraint(const SchemaElementDecl* const elemDecl,
+                                   const XMLSize_t childCount);
+
+    // -----------------------------------------------------------------------
     //  Element Consistency Checking methods
     // -----------------------------------------------------------------------
     void checkRefElementConsistency(SchemaGrammar* const currentGrammar,
